@@ -1073,3 +1073,617 @@ Proof.
     destruct (n =? i); simpl; auto.
   - apply PL.
 Qed.
+
+
+(* ------------------------------------------------------------------ part 11 *)
+(* ---- hub level facts about sends *)
+Lemma ne_send : forall s th l th' evs k m,
+  next Fixed s th = Some (l, th', evs) -> In (ESend k m) evs ->
+  k = rkey (t_key th) /\ evs = [ESend k m] /\ t_pc th = PS S_app /\ t_pc th' = PS S_rel /\
+  (exists rest, t_ops th = Send m :: rest) /\ t_ops th' = t_ops th /\ t_out th' = t_out th.
+Proof. intros s th l th' evs k m H Hin. next_inv H; des2; ev_in Hin; repeat split; eauto. Qed.
+
+Lemma sentq_none : forall k evs, (forall m, ~ In (ESend k m) evs) -> sentq k evs = [].
+Proof.
+  intros k evs H. unfold sentq.
+  assert (G : forall l, (forall m, ~ In (ESend k m) l) -> flat_map (sentq_ev k) l = []).
+  { induction l as [|e l IH]; intros Hl; simpl; auto.
+    rewrite IH by (intros m Hm; apply (Hl m); right; exact Hm).
+    destruct e; simpl; auto. destruct (key_eqb k k0) eqn:E; auto.
+    apply key_eqb_eq in E; subst. exfalso. apply (Hl m). left; reflexivity. }
+  apply G. intros m Hm. apply in_rev in Hm. exact (H m Hm).
+Qed.
+
+(* steps of a Send op that do not append: the thread is neither at S_app before nor at S_rel after,
+   unless it was at S_rel and finishes with ROk *)
+Lemma ne_send_quiet : forall s th l th' evs m rest,
+  next Fixed s th = Some (l, th', evs) -> t_ops th = Send m :: rest -> (forall k m', ~ In (ESend k m') evs) ->
+  (forall tg, t_pc th <> PS (S_call tg)) ->
+  (t_pc th = PS S_rel /\ t_ops th' = rest /\ t_out th' = ROk :: t_out th) \/
+  (t_pc th <> PS S_rel /\ t_pc th' <> PS S_rel /\
+   ((t_ops th' = t_ops th /\ t_out th' = t_out th) \/ (t_ops th' = rest /\ t_out th' = RConnErr :: t_out th))).
+Proof.
+  intros s th l th' evs m rest H Hops Hno Hnc. unfold next in H. rewrite Hops in H.
+  destruct (t_pc th) as [|c|c|c|c] eqn:Hpc; try discriminate; try (destruct c; try discriminate);
+  cbn beta iota in H; inversion H; subst; clear H; des2; simpl; rewrite ?Hops; simpl;
+  try (left; repeat split; reflexivity);
+  try (right; split; [discriminate|split; [discriminate|left; split; reflexivity]]);
+  try (right; split; [discriminate|split; [discriminate|right; split; reflexivity]]).
+  - exfalso. eapply Hnc; eauto.
+  - exfalso. eapply Hno. left. reflexivity.
+Qed.
+
+(* ---- controller level *)
+Definition sent_on (i : nat) (lg : list (nat * msg)) : list msg :=
+  flat_map (fun x => if fst x =? i then [snd x] else []) lg.
+
+(* the message of the send in progress on socket i has been appended but not yet logged *)
+Definition inflight (e : endpoint) (i : nat) (th : thread) : list msg :=
+  match e_cur e, e_ops e with
+  | Some c, BSend m :: _ =>
+      if c =? i then
+        match t_ops th, t_pc th, t_out th with
+        | _ :: _, PS S_rel, _ => [m]
+        | [], _, ROk :: _ => [m]
+        | _, _, _ => []
+        end
+      else []
+  | _, _ => []
+  end.
+
+Definition skey (e : endpoint) (i : nat) : key := (e_app e, nth i (e_remotes e) 0, 0).
+
+Definition slog (h : state) (e : endpoint) : Prop :=
+  forall i th, i < nrem e -> nth_error (s_th h) (sock e i) = Some th ->
+    sentq (rkey (skey e i)) (s_tr h) = sent_on i (rev (e_log e)) ++ inflight e i th.
+
+Lemma sent_on_app : forall i a b, sent_on i (a ++ b) = sent_on i a ++ sent_on i b.
+Proof. intros. unfold sent_on. apply flat_map_app. Qed.
+
+(* slog only looks at (t_ops, t_pc, t_out) of e's sockets and at the history *)
+Definition same_ctl (e : endpoint) (h h' : state) : Prop :=
+  forall i x, i < nrem e -> nth_error (s_th h') (sock e i) = Some x ->
+    exists y, nth_error (s_th h) (sock e i) = Some y /\ t_out x = t_out y /\ t_ops x = t_ops y /\ t_pc x = t_pc y.
+
+Lemma slog_same : forall e h h', same_ctl e h h' ->
+  (forall i, i < nrem e -> sentq (rkey (skey e i)) (s_tr h') = sentq (rkey (skey e i)) (s_tr h)) ->
+  slog h e -> slog h' e.
+Proof.
+  intros e h h' S T A i x Hi Hx. destruct (S i x Hi Hx) as (y & Hy & Eo & Ep & Ec).
+  rewrite (T i Hi). unfold inflight. rewrite Eo, Ep, Ec. apply (A i y Hi Hy).
+Qed.
+
+Lemma same_ctl_agree : forall e h h', agree_on e h h' -> same_ctl e h h'.
+Proof. intros e h h' A i x Hi Hx. rewrite (A i Hi) in Hx. eauto 6. Qed.
+
+Lemma same_ctl_step_other : forall h e t l h',
+  stepl Fixed h t = Some (l, h') -> (forall i, i < nrem e -> sock e i <> t) -> same_ctl e h h'.
+Proof.
+  intros h e t l h' H Hno i x Hi Hx.
+  destruct (agree_step_other _ _ _ _ _ H Hno i Hi _ Hx) as (y & Hy & Hc).
+  apply ctl_kc in Hc. destruct Hc as (_ & _ & Hp & Ho & Hout). eauto 6.
+Qed.
+
+
+(* ------------------------------------------------------------------ part 12 *)
+Lemma ne_send_dec : forall s th l th' evs,
+  next Fixed s th = Some (l, th', evs) ->
+  (exists k m, In (ESend k m) evs) \/ (forall k m, ~ In (ESend k m) evs).
+Proof.
+  intros s th l th' evs H. next_inv H; des2;
+  try (right; intros k0 m0 Hin; ev_in Hin; fail); left; eexists; eexists; left; reflexivity.
+Qed.
+
+(* the hub thread behind socket i, its key and that nobody else has that key *)
+Lemma sock_sole : forall cfg s p e i, binv cfg s -> keys_distinct cfg ->
+  nth_error (b_par s) p = Some (PB e) -> i < nrem e ->
+  nth_error (hcfg_of cfg) (sock e i) = Some (skey e i, false, []) /\ sole (hcfg_of cfg) (skey e i) (sock e i).
+Proof.
+  intros cfg s p e i [Rh L C] KD Hp Hi.
+  destruct (L _ _ Hp) as (x0 & H0 & S0). destruct x0 as [e0|t0]; [|simpl in S0; contradiction].
+  destruct S0 as (Ea & Er & Eb).
+  assert (Hi0 : i < List.length (e_remotes e0)) by (rewrite <- Er; exact Hi).
+  destruct (mk_parties_socket _ _ _ _ i H0 Hi0) as [_ G]. rewrite Nat.sub_0_r in G.
+  rewrite <- Eb, <- Er, <- Ea in G. split; [exact G|].
+  exact (keys_sole _ _ _ KD G).
+Qed.
+
+Lemma skey_inj : forall e i j, NoDup (e_remotes e) -> i < nrem e -> j < nrem e -> skey e i = skey e j -> i = j.
+Proof.
+  intros e i j ND Hi Hj E. unfold skey in E. injection E as H1.
+  destruct (Nat.eq_dec i j) as [|Hne]; auto. exfalso.
+  exact (nth_NoDup_neq (e_remotes e) i j ND Hi Hj Hne H1).
+Qed.
+
+(* no thread of an all-plain hub is ever about to call a receive callback *)
+Lemma plain_no_scall : forall hcfg s t th tg, all_plain hcfg -> hreach hcfg s ->
+  nth_error (s_th s) t = Some th -> t_pc th <> PS (S_call tg).
+Proof.
+  intros hcfg s t th tg Hp R Ht E.
+  destruct (icb_c _ (hreach_inv_cb _ _ R) _ _ _ Ht E) as (x & Hx & _ & K2).
+  destruct (hreach_inv_keys _ _ R _ _ Hx) as (c & Hc & _ & E2).
+  apply nth_error_In in Hc. rewrite (Hp c Hc) in E2. congruence.
+Qed.
+
+(* any hub step, seen from endpoint e *)
+Lemma slog_step : forall cfg s p e t l h',
+  binv cfg s -> keys_distinct cfg -> nth_error (b_par s) p = Some (PB e) -> NoDup (e_remotes e) ->
+  slog (b_hub s) e -> stepl Fixed (b_hub s) t = Some (l, h') ->
+  (e_cur e = Some (t - e_base e) /\ owns (PB e) t \/ ~ owns (PB e) t) ->
+  slog h' e.
+Proof.
+  intros cfg s p e t l h' BI KD Hp ND A H Hown.
+  pose proof BI as [Rh L C]. set (h := b_hub s) in *.
+  pose proof (stepl_inv _ _ _ _ _ H) as (th & th' & evs & Ht & Hn & He & Hs').
+  assert (Htr : s_tr h' = evs ++ s_tr h) by (subst h'; apply apply_tr).
+  destruct (hreach_inv_keys _ _ Rh _ _ Ht) as (ct & Hct & Kt & _).
+  (* an append for one of e's peers can only come from the socket for that peer *)
+  assert (SRC : forall i k m, i < nrem e -> In (ESend k m) evs -> k = rkey (skey e i) -> t = sock e i).
+  { intros i k m Hi Hin Ek. destruct (ne_send _ _ _ _ _ _ _ Hn Hin) as (Ek' & _).
+    destruct (sock_sole _ _ _ _ i BI KD Hp Hi) as [_ Hsole].
+    eapply Hsole; eauto. rewrite <- Kt. apply rkey_inj. congruence. }
+  intros i x Hi Hx. rewrite Htr, sentq_app.
+  destruct (step_threads _ _ _ _ _ _ _ H Hx) as (th0 & th0' & evs0 & Ht0 & Hn0 & Hcc).
+  rewrite Ht in Ht0; inversion Ht0; subst th0. rewrite Hn in Hn0; inversion Hn0; subst th0' evs0.
+  destruct Hcc as [[E Hcc]|[Hne (y & Hy & Hcc)]]; apply ctl_kc in Hcc; destruct Hcc as (_ & _ & Hpc & Hops & Hout).
+  - (* the acting thread is socket i of e *)
+    destruct Hown as [[Hc _]|Hno]; [|exfalso; apply Hno; rewrite <- E; apply owns_sock; auto].
+    assert (Ei : t - e_base e = i) by (rewrite <- E; unfold sock; lia). rewrite Ei in Hc. clear Ei.
+    destruct (c_cur _ _ (C _ _ Hp) i Hc) as (_ & o & rest & Ho & Hth).
+    rewrite <- E in Ht.
+    assert (Eth : t_ops th = [sop o]).
+    { destruct (Hth _ Ht) as [E1|E1]; auto. unfold next in Hn. rewrite E1 in Hn. discriminate. }
+    pose proof (A i th Hi Ht) as Pre.
+    unfold inflight in *. rewrite Hc, Ho, Nat.eqb_refl in *. rewrite Hops, Hpc, Hout.
+    destruct (sock_sole _ _ _ _ i BI KD Hp Hi) as [Hent _].
+    assert (Kth : t_key th = skey e i).
+    { destruct (hreach_inv_keys _ _ Rh _ _ Ht) as (c & Hc' & K1 & _). rewrite Hent in Hc'. inversion Hc'; subst. exact K1. }
+    destruct o as [|m| |].
+    + (* connect *) rewrite (sentq_none _ evs); [rewrite app_nil_r; exact Pre|].
+      intros m Hin. destruct (ne_send _ _ _ _ _ _ _ Hn Hin) as (_ & _ & _ & _ & (r0 & Er) & _). rewrite Eth in Er. discriminate.
+    + (* send m *)
+      rewrite Eth in Pre.
+      destruct (ne_send_dec _ _ _ _ _ Hn) as [(k & m' & Hin)|Hno].
+      * destruct (ne_send _ _ _ _ _ _ _ Hn Hin) as (Ek & Ev & P1 & P2 & (r0 & Er) & O1 & O2).
+        rewrite Eth in Er. simpl in Er. inversion Er; subst m' r0.
+        rewrite Ev, Ek, Kth. unfold sentq at 2. cbn [rev app flat_map sentq_ev]. rewrite key_eqb_refl. cbn [app].
+        rewrite P1 in Pre. rewrite P2, O1, Eth. rewrite app_nil_r in Pre. rewrite Pre. reflexivity.
+      * rewrite (sentq_none _ evs) by (intros m0; apply Hno). rewrite app_nil_r.
+        assert (NC : forall tg, t_pc th <> PS (S_call tg)) by (intros tg; eapply plain_no_scall; eauto; apply hcfg_all_plain).
+        destruct (ne_send_quiet _ _ _ _ _ m [] Hn Eth Hno NC) as [(P1 & O1 & O2)|(P1 & P2 & [(O1 & O2)|(O1 & O2)])].
+        -- rewrite P1 in Pre. rewrite O1, O2. exact Pre.
+        -- rewrite O1, O2, Eth. destruct (t_pc th') as [|c|[]|c|c]; try exact Pre; try (destruct (t_pc th) as [|c0|[]|c0|c0]; try exact Pre; congruence); congruence.
+        -- rewrite O1, O2. destruct (t_pc th) as [|c0|[]|c0|c0]; try (rewrite app_nil_r in *; exact Pre); congruence.
+    + (* recv *) rewrite (sentq_none _ evs); [rewrite app_nil_r; exact Pre|].
+      intros m Hin. destruct (ne_send _ _ _ _ _ _ _ Hn Hin) as (_ & _ & _ & _ & (r0 & Er) & _). rewrite Eth in Er. discriminate.
+    + (* close *) rewrite (sentq_none _ evs); [rewrite app_nil_r; exact Pre|].
+      intros m Hin. destruct (ne_send _ _ _ _ _ _ _ Hn Hin) as (_ & _ & _ & _ & (r0 & Er) & _). rewrite Eth in Er. discriminate.
+  - (* another thread acted: socket i is unchanged, and nothing was appended for its peer *)
+    rewrite (sentq_none _ evs).
+    + rewrite app_nil_r. unfold inflight. rewrite Hops, Hpc, Hout. exact (A i y Hi Hy).
+    + intros m Hin. apply Hne. symmetry. eapply SRC; eauto.
+Qed.
+
+
+(* ------------------------------------------------------------------ part 13 *)
+Lemma inject_tr : forall h t o, s_tr (inject h t o) = s_tr h.
+Proof. reflexivity. Qed.
+
+(* a controller move that ends the op: everything in flight has been logged *)
+Lemma slog_finish : forall h e ops' out' lg' dn',
+  slog h e ->
+  (forall i th, i < nrem e -> nth_error (s_th h) (sock e i) = Some th ->
+     sent_on i (rev (e_log e)) ++ inflight e i th = sent_on i (rev lg')) ->
+  slog h (e_set e ops' None out' lg' dn').
+Proof.
+  intros h e ops' out' lg' dn' A Hl i th Hi Hth.
+  change (sock (e_set e ops' None out' lg' dn') i) with (sock e i) in Hth.
+  change (nrem (e_set e ops' None out' lg' dn')) with (nrem e) in Hi.
+  change (skey (e_set e ops' None out' lg' dn') i) with (skey e i).
+  rewrite (A i th Hi Hth), (Hl i th Hi Hth). unfold inflight. cbn [e_cur e_set e_log]. rewrite app_nil_r. reflexivity.
+Qed.
+
+(* a controller move that hands the next socket-level op to socket j *)
+Lemma slog_inject : forall h e j o' out' lg' dn',
+  slog h e -> j < nrem e ->
+  (forall i th, i < nrem e -> nth_error (s_th h) (sock e i) = Some th ->
+     sent_on i (rev (e_log e)) ++ inflight e i th = sent_on i (rev lg')) ->
+  slog (inject h (sock e j) o') (e_set e (e_ops e) (Some j) out' lg' dn').
+Proof.
+  intros h e j o' out' lg' dn' A Hj Hl i th Hi Hth.
+  change (sock (e_set e (e_ops e) (Some j) out' lg' dn') i) with (sock e i) in Hth.
+  change (nrem (e_set e (e_ops e) (Some j) out' lg' dn')) with (nrem e) in Hi.
+  change (skey (e_set e (e_ops e) (Some j) out' lg' dn') i) with (skey e i).
+  rewrite inject_tr. rewrite inject_threads in Hth.
+  unfold inflight. cbn [e_cur e_ops e_set e_log].
+  destruct (Nat.eqb (sock e i) (sock e j)) eqn:E.
+  - apply Nat.eqb_eq in E. assert (i = j) by (unfold sock in E; lia). subst i.
+    destruct (nth_error (s_th h) (sock e j)) as [y|] eqn:Hy; simpl in Hth; inversion Hth; subst th.
+    rewrite (A j y Hj Hy), (Hl j y Hj Hy). cbn [inj_th t_ops t_pc t_out].
+    destruct (e_ops e) as [|[] ?]; rewrite ?Nat.eqb_refl, ?app_nil_r; reflexivity.
+  - apply Nat.eqb_neq in E. assert (j =? i = false) by (apply Nat.eqb_neq; intros ->; apply E; reflexivity).
+    rewrite (A i th Hi Hth), (Hl i th Hi Hth).
+    destruct (e_ops e) as [|[] ?]; rewrite ?H, ?app_nil_r; reflexivity.
+Qed.
+
+Lemma sent_on_single : forall i j m, sent_on i [(j, m)] = if j =? i then [m] else [].
+Proof. intros. unfold sent_on. simpl. destruct (j =? i); reflexivity. Qed.
+
+Lemma slog_settle1 : forall h e h' e',
+  ctrl h e -> slog h e -> settle1 h e = Some (h', e') -> slog h' e'.
+Proof.
+  intros h e h' e' [C1 C2] A H. unfold settle1 in H. fold (nrem e) in H.
+  destruct (e_ops e) as [|o rest] eqn:Ho; [discriminate|].
+  destruct (e_cur e) as [i|] eqn:Ec.
+  - destruct (C2 i eq_refl) as (Hi & o0 & rest0 & Ho0 & Hth0). inversion Ho0; subst o0 rest0.
+    destruct (nth_error (s_th h) (sock e i)) as [th|] eqn:Hth; [|unfold sock in Hth; rewrite Hth in H; discriminate].
+    unfold sock in Hth. rewrite Hth in H. fold (sock e i) in Hth.
+    destruct (t_ops th) eqn:Hops; [|discriminate].
+    destruct (t_out th) as [|r out0] eqn:Hout; [discriminate|].
+    (* what is in flight: the message of a send that has just returned ok on the active socket *)
+    assert (FL : forall j y, j < nrem e -> nth_error (s_th h) (sock e j) = Some y ->
+              inflight e j y = match o, r with BSend m, ROk => if i =? j then [m] else [] | _, _ => [] end).
+    { intros j y Hj Hy. unfold inflight. rewrite Ec, Ho. destruct o; try reflexivity.
+      destruct (Nat.eqb i j) eqn:Eij.
+      - apply Nat.eqb_eq in Eij; subst j. rewrite Hth in Hy. inversion Hy; subst y. rewrite Hops, Hout.
+        destruct r; reflexivity.
+      - destruct r; reflexivity. }
+    assert (LOGGED : forall j y, j < nrem e -> nth_error (s_th h) (sock e j) = Some y ->
+              sent_on j (rev (e_log e)) ++ inflight e j y =
+              sent_on j (rev (match o, r with BSend m, ROk => (i, m) :: e_log e | _, _ => e_log e end))).
+    { intros j y Hj Hy. rewrite (FL j y Hj Hy). destruct o; try (rewrite app_nil_r; reflexivity).
+      destruct r; try (rewrite app_nil_r; reflexivity).
+      simpl rev. rewrite sent_on_app, sent_on_single. reflexivity. }
+    assert (NEXT :
+      (if S i <? nrem e
+       then Some (inject h (e_base e + S i) (sop o), e_set e (o :: rest) (Some (S i)) (e_out e)
+                    (match o, r with BSend m, ROk => (i, m) :: e_log e | _, _ => e_log e end) (e_done e))
+       else Some (h, e_set e rest None (BOk :: e_out e)
+                    (match o, r with BSend m, ROk => (i, m) :: e_log e | _, _ => e_log e end) ((o, BOk) :: e_done e))) = Some (h', e') ->
+      slog h' e').
+    { intros G. destruct (S i <? nrem e) eqn:L; inversion G; subst.
+      - apply Nat.ltb_lt in L. rewrite <- Ho. apply (slog_inject h e (S i)); auto.
+      - apply slog_finish; auto. }
+    assert (PLAIN : (forall m, ~ (o = BSend m /\ r = ROk)) -> forall j y, j < nrem e -> nth_error (s_th h) (sock e j) = Some y ->
+              sent_on j (rev (e_log e)) ++ inflight e j y = sent_on j (rev (e_log e))).
+    { intros NM j y Hj Hy. rewrite (LOGGED j y Hj Hy). destruct o; auto. destruct r; auto. exfalso. eapply NM; eauto. }
+    destruct o; destruct r; try (apply (NEXT H));
+      try (inversion H; subst; apply slog_finish; auto; apply PLAIN; intros ? [X Y]; discriminate).
+    all: inversion H; subst;
+      assert (Hj : (if S i <? nrem e then S i else 0) < nrem e) by (destruct (S i <? nrem e) eqn:L; [apply Nat.ltb_lt in L; exact L | lia]);
+      rewrite <- Ho; apply (slog_inject h e _); auto; apply PLAIN; intros ? [X Y]; discriminate.
+  - assert (PLAIN : forall j y, j < nrem e -> nth_error (s_th h) (sock e j) = Some y ->
+              sent_on j (rev (e_log e)) ++ inflight e j y = sent_on j (rev (e_log e))).
+    { intros j y _ _. unfold inflight. rewrite Ec. apply app_nil_r. }
+    destruct (nrem e =? 0) eqn:N0.
+    + destruct o; try discriminate; inversion H; subst; apply slog_finish; auto.
+    + apply Nat.eqb_neq in N0. inversion H; subst.
+      replace (e_base e) with (sock e 0) by (unfold sock; lia). rewrite <- Ho.
+      apply (slog_inject h e 0); auto. lia.
+Qed.
+
+
+(* ------------------------------------------------------------------ part 14 *)
+Lemma settle_slog : forall fuel h e h' e',
+  ctrl h e -> slog h e -> settle fuel h e = (h', e') -> slog h' e'.
+Proof.
+  induction fuel as [|f IH]; intros h e h' e' C A H; simpl in H.
+  - inversion H; subst. exact A.
+  - destruct (settle1 h e) as [[h1 e1]|] eqn:E.
+    + destruct (settle1_ok _ _ _ _ C E) as (C1 & _ & _).
+      exact (IH h1 e1 h' e' C1 (slog_settle1 h e h1 e1 C A E) H).
+    + inversion H; subst. exact A.
+Qed.
+
+Lemma settle_tr : forall fuel h e h' e', settle fuel h e = (h', e') -> s_tr h' = s_tr h.
+Proof.
+  induction fuel as [|f IH]; intros h e h' e' H; simpl in H.
+  - inversion H; reflexivity.
+  - destruct (settle1 h e) as [[h1 e1]|] eqn:E; [|inversion H; reflexivity].
+    rewrite (IH _ _ _ _ H). unfold settle1 in E.
+    destruct (e_ops e); [discriminate|]. destruct (e_cur e).
+    + destruct (nth_error (s_th h) (e_base e + n)); [|discriminate].
+      destruct (t_ops t); [|discriminate]. destruct (t_out t); [discriminate|].
+      destruct b; destruct r; try (destruct (S n <? List.length (e_remotes e))); inversion E; reflexivity.
+    + destruct (List.length (e_remotes e) =? 0); [destruct b; inversion E; reflexivity|inversion E; reflexivity].
+Qed.
+
+(* slog of an endpoint survives hub changes outside its sockets that leave the history alone *)
+Lemma slog_frame : forall e0 e h h', frame e0 h h' -> s_tr h' = s_tr h ->
+  (forall t, owns (PB e0) t -> owns (PB e) t -> False) -> slog h e -> slog h' e.
+Proof.
+  intros e0 e h h' F T D A. eapply slog_same; [|intros i Hi; rewrite T; reflexivity|exact A].
+  apply same_ctl_agree. eapply frame_agree; eauto.
+Qed.
+
+Definition slogs (s : bstate) : Prop :=
+  forall p e, nth_error (b_par s) p = Some (PB e) -> NoDup (e_remotes e) -> slog (b_hub s) e.
+
+Lemma slogs_step : forall cfg s p l s', keys_distinct cfg -> binv cfg s -> slogs s -> bstep s p = Some (l, s') -> slogs s'.
+Proof.
+  intros cfg s p l s' KD BI AC H. pose proof BI as [Rh L C]. unfold bstep in H.
+  destruct (nth_error (b_par s) p) as [[e|t]|] eqn:Hp; [| |discriminate].
+  - destruct (e_cur e) as [i|] eqn:Ec; [|discriminate].
+    destruct (stepl Fixed (b_hub s) (e_base e + i)) as [[l0 h1]|] eqn:Hs; [|discriminate].
+    destruct (settle SETTLE_FUEL h1 e) as [h2 e'] eqn:Hst. inversion H; subst l0 s'. clear H.
+    fold (sock e i) in Hs.
+    pose proof (C _ _ Hp) as Ce. destruct (c_cur _ _ Ce i Ec) as (Hi & _).
+    assert (C1 : ctrl h1 e) by (eapply ctrl_step_own; eauto).
+    assert (R1 : hreach (hcfg_of cfg) h1) by (eapply hr_step; eauto).
+    destruct (settle_ok _ _ _ _ _ _ C1 R1 Hst) as (C2 & L2 & R2 & F2).
+    intros q e2 Hq ND. cbn [b_par b_hub] in Hq |- *. unfold set_party in Hq. destruct (Nat.eq_dec q p) as [->|Hne].
+    + erewrite nth_set_nth_eq in Hq by eauto. inversion Hq; subst e2.
+      assert (NDe : NoDup (e_remotes e)) by (rewrite <- (layout_remotes _ _ L2); exact ND).
+      assert (A1 : slog h1 e).
+      { eapply (slog_step cfg s p e (sock e i) l h1); eauto. left. split.
+        - rewrite Ec. f_equal. unfold sock. lia.
+        - apply owns_sock; auto. }
+      exact (settle_slog _ _ _ _ _ C1 A1 Hst).
+    + rewrite nth_set_nth_neq in Hq by auto.
+      assert (D : forall t, owns (PB e) t -> owns (PB e2) t -> False).
+      { intros t O1 O2. eapply (lay_disjoint cfg (b_par s) p q); eauto. }
+      eapply slog_frame; eauto. { eapply settle_tr; eauto. }
+      eapply (slog_step cfg s q e2 (sock e i) l h1); eauto. right. intros O. eapply D; eauto. apply owns_sock; auto.
+  - destruct (stepl Fixed (b_hub s) t) as [[l0 h1]|] eqn:Hs; [|discriminate]. inversion H; subst l0 s'. clear H.
+    intros q e2 Hq ND. cbn [b_par b_hub] in Hq |- *.
+    eapply (slog_step cfg s q e2 t l h1); eauto. right. intros O.
+    assert (q <> p) by (intros ->; rewrite Hp in Hq; discriminate).
+    eapply (lay_disjoint cfg (b_par s) q p (PB e2) (PRaw t) t); eauto. simpl. reflexivity.
+Qed.
+
+Lemma settle_all_slog : forall hcfg ps h h' ps',
+  settle_all h ps = (h', ps') -> hreach hcfg h ->
+  (forall p e, nth_error ps p = Some (PB e) -> ctrl h e) -> pairwise_disj ps ->
+  (forall p e, nth_error ps p = Some (PB e) -> slog h e) ->
+  s_tr h' = s_tr h /\ forall p e', nth_error ps' p = Some (PB e') -> slog h' e'.
+Proof.
+  intros hcfg ps. induction ps as [|x ps IH]; intros h h' ps' H R C D A; cbn [settle_all] in H.
+  - inversion H; subst. split; [reflexivity|]. intros p e' Hp. destruct p; discriminate.
+  - destruct x as [e|t0].
+    + destruct (settle SETTLE_FUEL h e) as [h1 e1] eqn:Hs.
+      destruct (settle_all h1 ps) as [h2 r'] eqn:Hr. inversion H; subst; clear H.
+      destruct (settle_ok _ _ _ _ _ _ (C 0 e eq_refl) R Hs) as (C1 & L1 & R1 & F1).
+      pose proof (settle_tr _ _ _ _ _ Hs) as T1.
+      assert (Dtail : forall p e2, nth_error ps p = Some (PB e2) -> forall t, owns (PB e) t -> owns (PB e2) t -> False).
+      { intros p e2 Hp t O1 O2. apply (D 0 (S p) (PB e) (PB e2) t); simpl; auto. }
+      assert (Ctail : forall p e2, nth_error ps p = Some (PB e2) -> ctrl h1 e2).
+      { intros p e2 Hp. eapply ctrl_agree; [eapply frame_agree; eauto|apply (C (S p)); exact Hp]. }
+      assert (Atail : forall p e2, nth_error ps p = Some (PB e2) -> slog h1 e2).
+      { intros p e2 Hp. eapply slog_frame; eauto. apply (A (S p)); auto. }
+      destruct (settle_all_ok _ _ _ _ _ Hr R1 Ctail (pairwise_tail _ _ D)) as (_ & _ & _ & F2).
+      destruct (IH _ _ _ Hr R1 Ctail (pairwise_tail _ _ D) Atail) as [T2 A2].
+      split; [congruence|].
+      intros p e' Hp. destruct p as [|p]; simpl in Hp.
+      * inversion Hp; subst e'.
+        pose proof (settle_slog _ _ _ _ _ (C 0 e eq_refl) (A 0 e eq_refl) Hs) as A1.
+        eapply slog_same; [|intros i Hi; rewrite T2; reflexivity|exact A1]. apply same_ctl_agree.
+        intros i Hi. apply F2. intros q y Hq O.
+        destruct (layout_sock _ _ L1) as [S1 N1].
+        apply (D 0 (S q) (PB e) y (sock e1 i)); simpl; auto.
+        rewrite S1. apply owns_sock. rewrite <- N1. exact Hi.
+      * eauto.
+    + destruct (settle_all h ps) as [h2 r'] eqn:Hr. inversion H; subst; clear H.
+      destruct (IH _ _ _ Hr R) as [T2 A2].
+      * intros q e2 Hq. apply (C (S q)); exact Hq.
+      * eapply pairwise_tail; eauto.
+      * intros q e2 Hq. apply (A (S q)); exact Hq.
+      * split; auto. intros p e' Hp. destruct p as [|p]; simpl in Hp; [discriminate|eauto].
+Qed.
+
+Lemma init_slog : forall cfg p e, nth_error (mk_parties 0 cfg) p = Some (PB e) -> slog (init (hcfg_of cfg)) e.
+Proof.
+  intros cfg p e Hp i th Hi Hth.
+  assert (Ecur : e_cur e = None /\ e_log e = []).
+  { clear - Hp. revert p Hp. generalize 0 as base. induction cfg as [|c cfg IH]; intros base p Hp; simpl in Hp.
+    - destruct p; discriminate.
+    - destruct c; destruct p; simpl in Hp; try (inversion Hp; subst; auto; fail); try discriminate; eauto. }
+  destruct Ecur as [E1 E2]. unfold inflight. rewrite E1, E2. reflexivity.
+Qed.
+
+Lemma slogs_init : forall cfg, slogs (binit cfg).
+Proof.
+  intros cfg. unfold binit.
+  destruct (settle_all (init (flat_map hub_threads cfg)) (mk_parties 0 cfg)) as [h ps] eqn:H.
+  intros p e Hp ND. cbn [b_par b_hub] in *.
+  destruct (settle_all_slog (hcfg_of cfg) _ _ _ _ H (hr_init _)) as [_ G]; eauto.
+  - intros q e2 Hq. eapply init_ctrl; eauto.
+  - intros q q' x x' t. apply mk_parties_disjoint.
+  - intros q e2 Hq. eapply init_slog; eauto.
+Qed.
+
+Lemma breach_slogs : forall cfg s, keys_distinct cfg -> breach cfg s -> slogs s.
+Proof.
+  intros cfg s KD R. induction R; [apply slogs_init|].
+  apply (slogs_step cfg s p l s'); auto. apply breach_binv; auto.
+Qed.
+
+(* ================= what was appended to the queue of peer i is what the endpoint logged as sent
+   on socket i, in order, plus at most the message of the send in progress *)
+Definition bc_sent_log_stmt : Prop :=
+  forall cfg sch p e i, keys_distinct cfg ->
+    let s := brun (binit cfg) sch in
+    nth_error (b_par s) p = Some (PB e) -> NoDup (e_remotes e) -> i < List.length (e_remotes e) ->
+    exists infl, List.length infl <= 1 /\
+      sent_log (nth i (e_remotes e) 0, e_app e, 0) (s_tr (b_hub s)) = sent_on i (rev (e_log e)) ++ infl.
+
+Theorem bc_sent_log : bc_sent_log_stmt.
+Proof.
+  intros cfg sch p e i KD s Hp ND Hi.
+  pose proof (breach_run cfg sch) as BR. fold s in BR.
+  pose proof (breach_binv _ _ BR) as BI. pose proof BI as [Rh L C].
+  pose proof (breach_slogs _ _ KD BR _ _ Hp ND) as A.
+  destruct (sock_sole _ _ _ _ i BI KD Hp Hi) as [Hent _].
+  assert (Hlen : sock e i < List.length (s_th (b_hub s))).
+  { rewrite (hreach_length _ _ Rh). apply nth_error_Some. congruence. }
+  destruct (nth_error (s_th (b_hub s)) (sock e i)) as [th|] eqn:Hth; [|apply nth_error_None in Hth; lia].
+  set (k := (nth i (e_remotes e) 0, e_app e, 0)).
+  destruct (nocb_logs_tr k (s_tr (b_hub s)) (hreach_nocb _ _ k (hcfg_all_plain cfg) Rh)) as [-> _].
+  change k with (rkey (skey e i)). rewrite (A i th Hi Hth).
+  exists (inflight e i th). split; auto.
+  unfold inflight. destruct (e_cur e); simpl; auto. destruct (e_ops e) as [|[] ?]; simpl; auto.
+  destruct (n =? i); simpl; auto.
+  destruct (t_ops th); [destruct (t_out th) as [|[] ?]; simpl; auto|].
+  destruct (t_pc th) as [| |[]| |]; simpl; auto.
+Qed.
+
+
+(* ------------------------------------------------------------------ part 15 *)
+(* a broadcast that ended ok was logged on every socket; one in progress on all sockets before the current one *)
+Record dinv (e : endpoint) : Prop := {
+  d_done : forall m, In (BSend m, BOk) (e_done e) -> forall i, i < nrem e -> In (i, m) (e_log e);
+  d_run : forall c m rest, e_cur e = Some c -> e_ops e = BSend m :: rest -> forall j, j < c -> In (j, m) (e_log e) }.
+
+Lemma dinv_settle1 : forall h e h' e', ctrl h e -> dinv e -> settle1 h e = Some (h', e') -> dinv e'.
+Proof.
+  intros h e h' e' [C1 C2] [D1 D2] H. unfold settle1 in H. fold (nrem e) in H.
+  destruct (e_ops e) as [|o rest] eqn:Ho; [discriminate|].
+  destruct (e_cur e) as [i|] eqn:Ec.
+  - destruct (C2 i eq_refl) as (Hi & _).
+    destruct (nth_error (s_th h) (e_base e + i)) as [th|]; [|discriminate].
+    destruct (t_ops th); [|discriminate]. destruct (t_out th) as [|r out0]; [discriminate|].
+    assert (KEEP : forall r0, (forall m, (o, r0) <> (BSend m, BOk)) ->
+              dinv (e_set e rest None (r0 :: e_out e) (e_log e) ((o, r0) :: e_done e))).
+    { intros r0 NE. split; cbn [e_done e_log e_cur e_ops e_set].
+      - intros m [X|X] j Hj; [exfalso; eapply NE; eauto | exact (D1 m X j Hj)].
+      - intros c m rest0 X. discriminate. }
+    assert (POLL : forall j, o = BRecv -> dinv (e_set e (o :: rest) (Some j) (e_out e) (e_log e) (e_done e))).
+    { intros j Eo. split; cbn [e_done e_log e_cur e_ops e_set].
+      - exact D1.
+      - intros c m rest0 _ X. subst o. discriminate. }
+    assert (NEXT : forall lg, (forall x, In x (e_log e) -> In x lg) ->
+              (forall m, o = BSend m -> In (i, m) lg) ->
+              (if S i <? nrem e
+               then Some (inject h (e_base e + S i) (sop o), e_set e (o :: rest) (Some (S i)) (e_out e) lg (e_done e))
+               else Some (h, e_set e rest None (BOk :: e_out e) lg ((o, BOk) :: e_done e))) = Some (h', e') -> dinv e').
+    { intros lg Sub New G. destruct (S i <? nrem e) eqn:L; inversion G; subst.
+      - split; cbn [e_done e_log e_cur e_ops e_set].
+        + intros m X j Hj. apply Sub. exact (D1 m X j Hj).
+        + intros c m rest0 X Y j Hj. inversion X; subst c. inversion Y; subst.
+          destruct (Nat.eq_dec j i) as [->|Hne]; [apply New; reflexivity|].
+          apply Sub. eapply (D2 i m rest0); eauto. lia.
+      - apply Nat.ltb_ge in L. split; cbn [e_done e_log e_cur e_ops e_set].
+        + intros m [X|X] j Hj.
+          * inversion X; subst.
+            destruct (Nat.eq_dec j i) as [->|Hne]; [apply New; reflexivity|].
+            apply Sub. eapply (D2 i m rest); eauto. unfold nrem in *. cbn [e_remotes e_set] in Hj. lia.
+          * apply Sub. exact (D1 m X j Hj).
+        + intros c m rest0 X. discriminate. }
+    destruct o; destruct r;
+      try (refine (NEXT _ _ _ H); [auto | intros ? X; discriminate X]);
+      try (inversion H; subst; apply KEEP; intros ? X; discriminate X);
+      try (inversion H; subst; apply POLL; reflexivity).
+    (* send returned ok: logged *)
+    refine (NEXT _ _ _ H).
+    + intros x X. right. exact X.
+    + intros m0 X. inversion X; subst. left. reflexivity.
+  - destruct (nrem e =? 0) eqn:N0.
+    + apply Nat.eqb_eq in N0.
+      destruct o; try discriminate; inversion H; subst; split; cbn [e_done e_log e_cur e_ops e_set];
+        try (intros c m0 rest0 X; discriminate);
+        intros m0 X j Hj; exfalso; unfold nrem in *; cbn [e_remotes e_set] in Hj; lia.
+    + inversion H; subst. split; cbn [e_done e_log e_cur e_ops e_set].
+      * exact D1.
+      * intros c m rest0 X Y j Hj. inversion X; subst. lia.
+Qed.
+
+Lemma settle_dinv : forall fuel h e h' e', ctrl h e -> dinv e -> settle fuel h e = (h', e') -> dinv e'.
+Proof.
+  induction fuel as [|f IH]; intros h e h' e' C D H; simpl in H.
+  - inversion H; subst. exact D.
+  - destruct (settle1 h e) as [[h1 e1]|] eqn:E.
+    + destruct (settle1_ok _ _ _ _ C E) as (C1 & _ & _).
+      exact (IH h1 e1 h' e' C1 (dinv_settle1 h e h1 e1 C D E) H).
+    + inversion H; subst. exact D.
+Qed.
+
+Definition dinvs (s : bstate) : Prop := forall p e, nth_error (b_par s) p = Some (PB e) -> dinv e.
+
+Lemma dinvs_step : forall cfg s p l s', binv cfg s -> dinvs s -> bstep s p = Some (l, s') -> dinvs s'.
+Proof.
+  intros cfg s p l s' [Rh L C] DS H. unfold bstep in H.
+  destruct (nth_error (b_par s) p) as [[e|t]|] eqn:Hp; [| |discriminate].
+  - destruct (e_cur e) as [i|] eqn:Ec; [|discriminate].
+    destruct (stepl Fixed (b_hub s) (e_base e + i)) as [[l0 h1]|] eqn:Hs; [|discriminate].
+    destruct (settle SETTLE_FUEL h1 e) as [h2 e'] eqn:Hst. inversion H; subst l0 s'. clear H.
+    fold (sock e i) in Hs.
+    assert (C1 : ctrl h1 e) by (eapply ctrl_step_own; eauto).
+    intros q e2 Hq. cbn [b_par] in Hq. unfold set_party in Hq. destruct (Nat.eq_dec q p) as [->|Hne].
+    + erewrite nth_set_nth_eq in Hq by eauto. inversion Hq; subst e2.
+      exact (settle_dinv _ _ _ _ _ C1 (DS _ _ Hp) Hst).
+    + rewrite nth_set_nth_neq in Hq by auto. eauto.
+  - destruct (stepl Fixed (b_hub s) t) as [[l0 h1]|] eqn:Hs; [|discriminate]. inversion H; subst l0 s'. clear H.
+    exact DS.
+Qed.
+
+Lemma settle_all_dinv : forall hcfg ps h h' ps',
+  settle_all h ps = (h', ps') -> hreach hcfg h ->
+  (forall p e, nth_error ps p = Some (PB e) -> ctrl h e) -> pairwise_disj ps ->
+  (forall p e, nth_error ps p = Some (PB e) -> dinv e) ->
+  forall p e', nth_error ps' p = Some (PB e') -> dinv e'.
+Proof.
+  intros hcfg ps. induction ps as [|x ps IH]; intros h h' ps' H R C D A; cbn [settle_all] in H.
+  - inversion H; subst. intros p e' Hp. destruct p; discriminate.
+  - destruct x as [e|t0].
+    + destruct (settle SETTLE_FUEL h e) as [h1 e1] eqn:Hs.
+      destruct (settle_all h1 ps) as [h2 r'] eqn:Hr. inversion H; subst; clear H.
+      destruct (settle_ok _ _ _ _ _ _ (C 0 e eq_refl) R Hs) as (C1 & L1 & R1 & F1).
+      assert (Ctail : forall p e2, nth_error ps p = Some (PB e2) -> ctrl h1 e2).
+      { intros p e2 Hp. eapply ctrl_agree; [eapply frame_agree; eauto|apply (C (S p)); exact Hp].
+        intros t O1 O2. apply (D 0 (S p) (PB e) (PB e2) t); simpl; auto. }
+      intros p e' Hp. destruct p as [|p]; simpl in Hp.
+      * inversion Hp; subst e'. exact (settle_dinv _ _ _ _ _ (C 0 e eq_refl) (A 0 e eq_refl) Hs).
+      * eapply (IH _ _ _ Hr R1 Ctail (pairwise_tail _ _ D)); eauto. intros q e2 Hq. apply (A (S q)); exact Hq.
+    + destruct (settle_all h ps) as [h2 r'] eqn:Hr. inversion H; subst; clear H.
+      intros p e' Hp. destruct p as [|p]; simpl in Hp; [discriminate|].
+      eapply (IH _ _ _ Hr R); eauto.
+      * intros q e2 Hq. apply (C (S q)); exact Hq.
+      * eapply pairwise_tail; eauto.
+      * intros q e2 Hq. apply (A (S q)); exact Hq.
+Qed.
+
+Lemma init_dinv : forall cfg p e, nth_error (mk_parties 0 cfg) p = Some (PB e) -> dinv e.
+Proof.
+  intros cfg p e Hp.
+  assert (E : e_cur e = None /\ e_done e = []).
+  { clear - Hp. revert p Hp. generalize 0 as base. induction cfg as [|c cfg IH]; intros base p Hp; simpl in Hp.
+    - destruct p; discriminate.
+    - destruct c; destruct p; simpl in Hp; try (inversion Hp; subst; auto; fail); try discriminate; eauto. }
+  destruct E as [E1 E2]. split.
+  - intros m X. rewrite E2 in X. contradiction.
+  - intros c m rest X. congruence.
+Qed.
+
+Lemma breach_dinvs : forall cfg s, breach cfg s -> dinvs s.
+Proof.
+  intros cfg s R. induction R.
+  - unfold binit.
+    destruct (settle_all (init (flat_map hub_threads cfg)) (mk_parties 0 cfg)) as [h ps] eqn:H.
+    intros p e Hp. cbn [b_par] in Hp.
+    eapply (settle_all_dinv (hcfg_of cfg) _ _ _ _ H (hr_init _)); eauto.
+    + intros q e2 Hq. eapply init_ctrl; eauto.
+    + intros q q' x x' t. apply mk_parties_disjoint.
+    + intros q e2 Hq. eapply init_dinv; eauto.
+  - apply (dinvs_step cfg s p l s'); auto. apply breach_binv; auto.
+Qed.
+
+Lemma in_sent_on : forall i m lg, In (i, m) lg -> In m (sent_on i lg).
+Proof.
+  intros i m lg H. unfold sent_on. apply in_flat_map. exists (i, m). split; auto. simpl. rewrite Nat.eqb_refl. left; reflexivity.
+Qed.
+
+(* ================= a broadcast that returned ok was handed to the hub for EVERY other party *)
+Definition bc_send_all_stmt : Prop :=
+  forall cfg sch p e m, keys_distinct cfg ->
+    let s := brun (binit cfg) sch in
+    nth_error (b_par s) p = Some (PB e) -> NoDup (e_remotes e) ->
+    In (BSend m, BOk) (e_done e) ->
+    forall i, i < List.length (e_remotes e) ->
+      In m (sent_log (nth i (e_remotes e) 0, e_app e, 0) (s_tr (b_hub s))).
+
+Theorem bc_send_all : bc_send_all_stmt.
+Proof.
+  intros cfg sch p e m KD s Hp ND Hd i Hi.
+  destruct (bc_sent_log cfg sch p e i KD Hp ND Hi) as (infl & _ & E). fold s in E. rewrite E.
+  apply in_or_app. left. apply in_sent_on. apply in_rev. rewrite rev_involutive.
+  pose proof (breach_dinvs _ _ (breach_run cfg sch) _ _ Hp) as [D1 _]. exact (D1 m Hd i Hi).
+Qed.
